@@ -43,6 +43,10 @@ def main():
             for _ in range(2)]
     res = {'entries': 0, 'refused': 0, 'overlaps': [], 'errors': [], 'yields': 0}
     mu = threading.Lock()
+    stop = threading.Event()
+    if forever:
+        import signal
+        signal.signal(signal.SIGTERM, lambda *a: stop.set())
 
     def section(rng, who):
         try:
@@ -65,8 +69,10 @@ def main():
                 res['entries'] += 1
                 n = res['entries']
             if forever:
-                with open(progress, 'w') as f:
+                tmpname = f'{progress}.{who}.tmp'
+                with open(tmpname, 'w') as f:
                     f.write(str(n))
+                os.replace(tmpname, progress)      # readers never see a truncated file
             time.sleep(rng.choice([0, 0, 0.0005, 0.002]))
         finally:
             os.unlink(marker)
@@ -75,7 +81,7 @@ def main():
         rng = random.Random(seed * 1000 + i)
         who = f'{os.getpid()}.{i}'
         k = 0
-        while forever or k < rounds:
+        while (forever and not stop.is_set()) or (not forever and k < rounds):
             k += 1
             o = objs[rng.randrange(2)]
             mode = rng.choice(['with', 'acq', 'nb', 'timed', 'ctx'])
@@ -113,8 +119,11 @@ def main():
     ts = [threading.Thread(target=worker, args=(i,), daemon=True) for i in range(nthr)]
     for t in ts:
         t.start()
+    if forever:
+        while not stop.is_set():
+            time.sleep(0.02)
     for t in ts:
-        t.join()
+        t.join(10)
     res['yields'] = yields[0]
     print(json.dumps(res))
 
